@@ -1,16 +1,74 @@
 PROPERTY = "C08"
-LEVEL = "proof"
-FUNCTIONS = ["check_file_range_equal"]
-TRUSTED = []
-ASSUMPTIONS = []
-EXPLANATION = ""
+# The comparer (unbounded loop contract), the configuration lemma and the
+# loop-free cache/in-flight functions are proved; the decision logic that walks
+# the block history / the in-flight list / the hash table is bounded symbolic
+# execution over every shape up to the stated length. The core is therefore
+# reported as model checking, not as a proof.
+LEVEL = "model_checking"
+FUNCTIONS = [
+    "check_file_range_equal",
+    "deduplicate_blocks", "store_block_location", "write_data_block",
+    "chunk_info_equals", "load_frag_block",
+    "process_completed_fragment (lookup/insert part)",
+    "process_completed_block (fragment block hand-over)",
+    "enqueue_block (in-flight copy)",
+    "hash_table_search_pre_hashed", "hash_table_insert_pre_hashed",
+    "sqfs_writer_init (block writer / block processor configuration)",
+]
+TRUSTED = [
+    "checksums are uninterpreted: every (size|checksum) word, chunk hash and xxh32 result is a free symbolic value, so equal words for different bytes occur in every harness",
+    "sqfs_file_t.read_at (cmp_sound): requires a writable buffer, returns 0 and delivers the file's bytes (witness offset/value pair: the same byte for the same offset) or a negative error; get_size/write_at/truncate (blk_*): ghost file size, write_at extends it, truncate sets it, each may fail",
+    "memcmp returns 0 only if the buffers agree (stated on the witness position); payload memcpy/memcmp are checking stubs (r_ok/w_ok, arguments recorded), the bytes themselves are not interpreted",
+    "check_file_range_equal as seen by deduplicate_blocks = its contract C08.cmp.* (answers 0, 1 or a negative error; proved in cmp_sound)",
+    "array_append (blk_wdb): stores the element at position `used` or fails",
+    "fragment hash table as seen by process_completed_fragment = the contract C08.ht.* (an existing entry is handed back only after the equality callback answered true for it; proved on the real hash_table.c for table sizes 5 and 7 in ht_search)",
+    "chunk_info_equals as seen by the hash table contract in frag_pcf: answers true/false or records a lookup error and answers false (its obligations are frag_equal's)",
+    "util_fast_urem32(n, d, REMAINDER_MAGIC(d)) == n % d (ht_search, --replace-call-with-contract; the function asserts this itself)",
+    "sqfs_frag_table_lookup/append/set, compressor do_block (uncompress: any r <= outsize, <= 0 on failure), alloc_flex (zeroed block header or NULL), thread pool submit/get_status, the constructors called by sqfs_writer_init: arbitrary result within their documented domain, every call may fail",
+    "CBMC models of malloc/calloc/free (calloc may fail in frag_pcf)",
+]
+ASSUMPTIONS = [
+    "block history well-formed (sizes > 0, blocks ordered and non-overlapping, inside the file, file_start <= used): established for one more block by C08.wdb.wf_preserved and kept by deduplicate_blocks (C08.blk.frame/truncate_safe); nobody but the block writer appends to the output file between a file's first and last block (C14/C02)",
+    "history length <= 4 (quick) / <= 6 (thorough), in-flight list <= 3, <= 2 stored chunks colliding with the searched hash, hash table sizes 5 and 7: all shapes up to the bound are enumerated by the driver, values are symbolic; longer structures are not covered",
+    "max_block_size is fixed per run (4096; frag_load additionally 1 MiB in the thorough tier): the code only compares sizes against it, but other block sizes are not separately run",
+    "deduplicate_blocks with SQFS_BLOCK_WRITER_HASH_COMPARE_ONLY and chunk_info_equals without file/uncompressor/table deduplicate on (size, checksum) alone by design (library option). C08.init.* proves that the packers never configure this; the option itself is outside the property",
+    "sparse fragments (set_block_size path of process_completed_fragment) and the inode bookkeeping of data blocks are C01/C03/C13 matters, excluded by requires in frag_pcf / frag_pcb",
+    "ht_search runs under --dfcc (for the urem contract): cbmc --cover cannot see cover points there; reachability is demonstrated by the self-test mutants. Hash table resize (rehash) is not exercised: insert is verified for tables with room",
+    "sqfs_writer_init: block size legal, num_jobs/max_backlog fit 32 bit (option parsers; narrowing is C03)",
+    "VERIF_CUT in blk_dedup.c (assert, then assume the same fact) only feeds the SAT solver the induction steps of an addition chain about the harness's own well-formed history; every cut is an obligation first",
+    "the uncompressor really inverts the compressor and xxh32 is a function of the bytes (neither is needed for soundness: equality is decided on bytes)",
+    "byte-exact read-back of a whole image (C01) is the composition of these lemmas with the reader proofs; the composition itself is an argument, not a machine-checked theorem",
+]
+EXPLANATION = (
+    "A file's block start is redirected only by deduplicate_blocks, and only after check_file_range_equal "
+    "answered 0 for (own start, candidate, sum of own on-disk sizes) (blk_dedup, blk_wdb); that answer implies "
+    "byte equality of the two ranges for every length (cmp_sound, loop contract + witness byte); truncation keeps "
+    "the shared range and every earlier block. A fragment is pointed at a stored chunk only if the hash table "
+    "handed back that chunk's entry (frag_pcf), which it does only after chunk_info_equals answered true "
+    "(ht_search), which happens only after memcmp == 0 on (block holding that chunk + offset, the fragment's "
+    "bytes, size) with bounds proved (frag_equal); the block is the in-flight copy made before submission "
+    "(frag_enqueue), the fragment block being filled, or the cache loaded from exactly the location the table "
+    "records after the write (frag_load, frag_pcb). The packers enable all of this (init_compare). Identical "
+    "data is still shared: the first matching candidate is offered to the comparer and a positive answer is "
+    "always used (first_candidate, identical_share, equal_is_returned, false_only_if_differ).")
 
 _BW_FP = {"truncate": "stub_truncate", "destroy": "stub_unreachable_destroy",
           "get_size": "stub_unreachable_get_size", "write_at": "stub_unreachable_write_at"}
-
-
 _BP_FP = {"read_at": "stub_read_at", "do_block": "stub_do_block",
           "*": "stub_unreachable_destroy"}
+_BE_FP = {"key_equals_function": "stub_chunk_equals", "dequeue": "stub_pool_dequeue",
+          "get_status": "stub_pool_get_status", "write_data_block": "stub_write_data_block"}
+
+_L_FL = "bounded(in-flight list<=3, block size 4096)"
+_FE_QUICK = {(0, 0, 0), (1, 1, 0), (2, 1, 1), (3, 0, 1), (3, 1, 1)}
+_FE_CASES = [dict(id="fl%d_fb%d_c%d" % (n, fb, c),
+                  defines={"NFL": n, "HAVE_FB": fb, "CACHE": c, "MODE": 0, "BS": 4096},
+                  tier="quick" if (n, fb, c) in _FE_QUICK else "thorough")
+             for n in range(4) for fb in (0, 1) for c in (0, 1)] + [
+    dict(id="hash_only", defines={"NFL": 1, "HAVE_FB": 1, "CACHE": 1, "MODE": 1, "BS": 4096},
+         tier="quick"),
+    dict(id="fl2_fb1_c1_bs8192", defines={"NFL": 2, "HAVE_FB": 1, "CACHE": 1, "MODE": 0, "BS": 8192},
+         tier="thorough", label="bounded(in-flight list<=3, block size 8192)")]
 
 
 def _shapes(nb, tier, label):
@@ -21,24 +79,61 @@ def _shapes(nb, tier, label):
 
 
 HARNESSES = [
+    # ---- byte comparer ---------------------------------------------------
     dict(name="cmp_sound", file="cmp_sound.c", loops=["check_file_range_equal"],
-         label="proved", timeout=300, fp={"read_at": "stub_read_at"},
+         label="proved", timeout=600, weight=5, fp={"read_at": "stub_read_at"},
          cases=[dict(id="scr8192", defines={"SCR": 8192}, tier="quick")]),
     dict(name="cmp_bounded", file="cmp_sound.c", label="bounded(chunks<=3)", timeout=300,
          fp={"read_at": "stub_read_at"},
          cases=[dict(id="chunks3", defines={"SCR": 8, "BOUNDED_CHUNKS": 3}, unwind=4, tier="quick")]),
-    dict(name="blk_dedup", file="blk_dedup.c", label="bounded(blocks<=4)", timeout=900,
+    # ---- block writer --------------------------------------------------------
+    dict(name="blk_dedup", file="blk_dedup.c", label="bounded(blocks<=4)", timeout=1500,
          fp=_BW_FP, cases=_shapes(4, "quick", "bounded(blocks<=4)") +
                          [c for c in _shapes(6, "thorough", "bounded(blocks<=6)")
                           if c["defines"]["USED"] > 4]),
-    dict(name="frag_equal", file="frag_equal.c", label="bounded(in-flight list<=3)", timeout=120,
-         fp=_BP_FP,
-         cases=[dict(id="fl2_fb1_c1", defines={"NFL": 2, "HAVE_FB": 1, "CACHE": 1, "MODE": 0, "BS": 4096}, tier="quick")]),
-    dict(name="ht_search", file="ht_search.c", label="bounded(table size<=7)", timeout=150, object_bits=10,
+    dict(name="blk_dedup_hashonly", file="blk_dedup.c", label="bounded(blocks<=4)", timeout=600,
+         fp=_BW_FP, defines={"HASH_ONLY": 1},
+         cases=[dict(id="u4f2", defines={"NB": 4, "USED": 4, "FS": 2}, unwind=5, tier="quick")]),
+    dict(name="blk_wdb", file="blk_wdb.c", label="bounded(blocks<=3)", timeout=300,
+         fp={"truncate": "stub_truncate", "destroy": "stub_unreachable_destroy",
+             "get_size": "stub_get_size", "write_at": "stub_write_at"},
+         cases=[dict(id="u%df%d" % (u, f), defines={"NB": 3, "USED": u, "FS": f}, unwind=4, tier="quick")
+                for u in range(3) for f in range(u + 1)]),
+    # ---- fragments -----------------------------------------------------------
+    dict(name="frag_equal", file="frag_equal.c", label=_L_FL, timeout=600,
+         fp=_BP_FP, cases=_FE_CASES),
+    dict(name="frag_load", file="frag_load.c", label="bounded(block size 4096)", timeout=900, fp=_BP_FP,
+         cases=[dict(id="c%d" % c, defines={"CACHE": c, "BS": 4096}, tier="quick") for c in (0, 1)] +
+               [dict(id="c1_1M", defines={"CACHE": 1, "BS": 1048576}, tier="thorough",
+                     label="bounded(block size 1048576)")]),
+    dict(name="frag_enqueue", file="frag_enqueue.c", label="bounded(block size 4096)", timeout=300,
+         fp={"submit": "stub_submit", "get_status": "stub_get_status"},
+         cases=[dict(id="fl%d_m%d" % (n, m), defines={"NFL": n, "MODE": m, "BS": 4096}, tier="quick")
+                for n, m in ((0, 0), (2, 0), (1, 1))]),
+    dict(name="frag_pcb", file="frag_pcb.c", label=_L_FL, timeout=300, fp=_BE_FP, unwind=4,
+         # `blk->flags & ~BLK_FLAG_INTERNAL`: the int -> unsigned conversion of a
+         # negative enum complement is well defined (modular) and intended
+         nochecks=["--conversion-check"],
+         cases=[dict(id="fl%d_pos%d" % (n, p), defines={"NFL": n, "POS": p, "BS": 4096}, tier="quick")
+                for n in range(4) for p in range(n + 1)]),
+    dict(name="frag_pcf", file="frag_pcf.c",
+         label="bounded(colliding stored chunks<=2, block size 4096)", timeout=300,
+         fp=_BE_FP, malloc_fail=True, unwind=3,
+         cases=[dict(id="fb%d_ino%d" % (fb, ino), defines={"HAVE_FB": fb, "HAVE_INODE": ino, "BS": 4096},
+                     tier="quick")
+                for fb in (0, 1) for ino in (0, 1)]),
+    dict(name="ht_search", file="ht_search.c", label="bounded(table size<=7)", timeout=600, object_bits=10,
          mode="dfcc", replace=["util_fast_urem32"], cover=False,
+         must_have=["C08.ht.hit_needs_equal", "C08.ht.equal_is_returned"],
          fp={"key_equals_function": "stub_equals", "key_hash_function": "stub_hash",
              "delete_function": "stub_delete"},
          cases=[dict(id="si%d_%s" % (si, "search" if op == 0 else "insert"),
-                     defines={"SI": si, "OP": op}, unwind=(6 if si == 0 else 8), tier="quick")
+                     defines={"SI": si, "OP": op}, unwind=(6 if si == 0 else 8),
+                     tier="thorough" if (si, op) == (1, 1) else "quick",
+                     weight=4 if op else 1)
                 for si in (0, 1) for op in (0, 1)]),
+    # ---- configuration -------------------------------------------------------
+    dict(name="init_compare", file="init_compare.c", label="proved", timeout=300,
+         fp={"write_options": "stub_write_options", "destroy": "stub_destroy"},
+         cases=[dict(id="all", tier="quick")]),
 ]
